@@ -58,6 +58,9 @@ func checkCmd(args []string) int {
 	cr.assumptions = append(append([]string{}, commonAssumptions...), p.assumptions...)
 	if p.instance {
 		instancePhase(cr, update)
+		if cr.tier == "thorough" {
+			mustFailPhase(cr)
+		}
 		return cr.finish(p.note)
 	}
 	w, err := symex.Load(repoDir(), p.patterns, nil)
@@ -70,6 +73,9 @@ func checkCmd(args []string) int {
 	contractPhase(cr, w, update)
 	if p.extra != nil {
 		p.extra(cr, w)
+	}
+	if cr.tier == "thorough" {
+		mustFailPhase(cr)
 	}
 	return cr.finish(p.note)
 }
@@ -248,6 +254,7 @@ func init() {
 	register(&propInfo{
 		id: "C01", patterns: []string{"./internal", "./template"},
 		trusted: genTrusted,
+		extra:   compilePhase,
 		note:    "lemma-level (necessary mechanisms only): registry bijection between import paths and qualifiers (C15); import bookkeeping of a variable (MethodScope.addImport, populateImports*: invariants and monotonicity, a named type's own package is recorded); variable names avoid qualifiers, type strings, keywords and template identifiers (C14); findPkgPath reads the module path with the go.mod parser, creates only the output directory and terminates; NewTemplateGenerator's in-package test (same package name and same directory); format dispatches on the three documented formatters and errors otherwise. Whether the rendered text type-checks is not decided by contracts.",
 	})
 	register(&propInfo{
